@@ -58,6 +58,28 @@ impl VisitorMut for Normalise {
             other => other,
         }
     }
+    // separators of a table constructor (`,` / `;`, trailing or not) may change
+    fn visit_table_constructor_end(&mut self, t: full_moon::ast::TableConstructor) -> full_moon::ast::TableConstructor {
+        use full_moon::ast::punctuated::{Pair, Punctuated};
+        let n = t.fields().len();
+        let mut fields = Punctuated::new();
+        for (i, pair) in t.fields().clone().into_pairs().enumerate() {
+            let v = pair.into_value();
+            fields.push(if i + 1 < n { Pair::new(v, Some(sym(","))) } else { Pair::new(v, None) });
+        }
+        t.with_fields(fields)
+    }
+    // `f"s"` / `f{t}` and `f("s")` / `f({t})` are the same call
+    fn visit_function_args_end(&mut self, a: full_moon::ast::FunctionArgs) -> full_moon::ast::FunctionArgs {
+        use full_moon::ast::punctuated::{Pair, Punctuated};
+        use full_moon::ast::FunctionArgs;
+        let one = |e: Expression| { let mut p = Punctuated::new(); p.push(Pair::new(e, None)); p };
+        match a {
+            FunctionArgs::String(s) => FunctionArgs::Parentheses { parentheses: ContainedSpan::new(sym("("), sym(")")), arguments: one(Expression::String(s)) },
+            FunctionArgs::TableConstructor(t) => FunctionArgs::Parentheses { parentheses: ContainedSpan::new(sym("("), sym(")")), arguments: one(Expression::TableConstructor(t)) },
+            other => other,
+        }
+    }
 }
 
 #[derive(Default)]
@@ -183,8 +205,64 @@ fn number_values(ast: &Ast) -> Vec<String> {
     let mut s = S(vec![]); s.visit_ast(ast); s.0
 }
 
+/// corpus mode: every file of a list under one configuration and a few column widths; all oracles that apply to any input
+/// (the formatter does not panic, the output parses, same operator tree, same comments, same literal values)
+fn corpus(args: &[String]) {
+    let list = std::fs::read_to_string(&args[2]).unwrap();
+    let mut cfg = Config::default();
+    let mut widths: Vec<usize> = vec![];
+    for kv in &args[3..] {
+        let (k, v) = kv.split_once('=').unwrap();
+        if k == "widths" { widths = v.split(',').map(|x| x.parse().unwrap()).collect(); } else if k != "syntax" { apply_opt(&mut cfg, k, v); }
+    }
+    if widths.is_empty() { widths.push(cfg.column_width); }
+    let mut failures = vec![];
+    let (mut files, mut runs) = (0, 0);
+    std::panic::set_hook(Box::new(|_| {}));
+    for line in list.lines() {
+        let Some((path, syntax)) = line.split_once('\t') else { continue };
+        let Ok(src) = std::fs::read_to_string(path) else { continue };
+        cfg.syntax = syntax_of(syntax);
+        let Ok(i) = full_moon::parse_fallible(&src, cfg.syntax.into()).into_result() else { continue };
+        files += 1;
+        let (ti, ci) = normal_form(i.clone());
+        let (si, ni) = (string_values(&i), number_values(&i));
+        for w in &widths {
+            cfg.column_width = *w;
+            runs += 1;
+            let mut fail = |kind: &str, detail: String| failures.push(json!({"file": path, "column_width": w, "kind": kind, "detail": detail}));
+            let res = std::panic::catch_unwind(|| format_code(&src, cfg, None, OutputVerification::None));
+            let out = match res { Err(_) => { fail("panic", "formatter panicked".into()); continue } Ok(Err(e)) => { fail("error", e.to_string()); continue } Ok(Ok(o)) => o };
+            let o = match full_moon::parse_fallible(&out, cfg.syntax.into()).into_result() {
+                Err(errs) => { fail("parse", errs.iter().map(|e| e.to_string()).collect::<Vec<_>>().join("; ")); continue }
+                Ok(o) => o,
+            };
+            let (so, no) = (string_values(&o), number_values(&o));
+            let (to, co) = normal_form(o);
+            // Luau type syntax: redundant parentheses around types and separators of type tables may change, and this normal form
+            // does not parenthesise type operators: for Luau files the streams are compared without `(` `)` `,` (corpus mode only)
+            let loose = |v: &Vec<String>| -> Vec<String> { v.iter().filter(|t| !matches!(t.as_str(), "(" | ")" | ",")).cloned().collect() };
+            let same = if syntax == "luau" { loose(&ti) == loose(&to) } else { ti == to };
+            if !cfg.sort_requires.enabled && !same {
+                let k = ti.iter().zip(to.iter()).position(|(a, b)| a != b).unwrap_or(ti.len().min(to.len()));
+                fail("tree", format!("token {}: input …{} / output …{}", k, ti[k.saturating_sub(4)..(k + 4).min(ti.len())].join(" "), to[k.saturating_sub(4)..(k + 4).min(to.len())].join(" ")));
+            }
+            let mut a = ci.clone(); a.sort(); let mut b = co.clone(); b.sort();
+            if a != b {
+                let lost: Vec<_> = a.iter().filter(|x| !b.contains(x)).take(3).collect();
+                let made: Vec<_> = b.iter().filter(|x| !a.contains(x)).take(3).collect();
+                fail("comments", format!("only in input {:?} / only in output {:?} ({} vs {} comments)", lost, made, a.len(), b.len()));
+            }
+            if !cfg.sort_requires.enabled && (si != so || ni != no) { fail("literals", "literal values differ".into()); }
+        }
+    }
+    println!("{}", json!({"files": files, "runs": runs, "failures": failures}));
+    std::process::exit(if failures.is_empty() { 0 } else { 1 });
+}
+
 fn main() {
     let args: Vec<String> = std::env::args().collect();
+    if args[1] == "corpus" { return corpus(&args); }
     // vxreplay <oracle> <file> [k=v]... [range=a:b] [contains=<file>]
     let oracle = &args[1];
     let src = std::fs::read_to_string(&args[2]).unwrap();
